@@ -537,3 +537,65 @@ Proof.
       * cbn [erase canonical]. exact Hlk.
       * apply in_app_or in Hin. destruct Hin as [Hin|Hin]; eauto.
 Qed.
+
+(** * The decoder model never panics (C09) *)
+
+Lemma dec_str_no_panic p rest : dec_str p rest <> Panic.
+Proof.
+  unfold dec_str. destruct (take_digits rest) as [ds r1]. destruct (negb (canon_b ds)); [discriminate|].
+  destruct (usize_max <? horner 0 ds); [discriminate|]. destruct r1 as [|c r2]; [discriminate|].
+  destruct (negb (c =? 58)); [discriminate|]. destruct (len r2 <? horner 0 ds); discriminate.
+Qed.
+
+Lemma dec_int_no_panic p rest : dec_int p rest <> Panic.
+Proof.
+  unfold dec_int. destruct rest as [|c0 r0]; [discriminate|]. destruct (negb (c0 =? 105)); [discriminate|].
+  destruct (match r0 with [] => (false, r0) | c :: r => if c =? 45 then (true, r) else (false, r0) end) as [neg r1].
+  destruct (take_digits r1) as [ds r2]. destruct (negb (canon_b ds)); [discriminate|].
+  destruct (neg && (horner 0 ds =? 0)); [discriminate|].
+  destruct ((_ <? i128_min)%Z || (i128_max <? _)%Z); [discriminate|].
+  destruct r2 as [|c r3]; [discriminate|]. destruct (c =? 101); discriminate.
+Qed.
+
+Lemma elems_no_panic dec : (forall q rs, dec q rs <> Panic) ->
+  forall g p0 q rs acc, elems dec g p0 q rs acc <> Panic.
+Proof.
+  intros Hd. induction g as [|g IH]; intros p0 q rs acc; cbn [elems]; [discriminate|].
+  destruct rs as [|c r']; [discriminate|]. destruct (c =? 101); [discriminate|].
+  destruct (dec q (c :: r')) as [[[t q'] rs']| | |] eqn:D; try discriminate; [apply IH|].
+  exfalso. eapply Hd; eauto.
+Qed.
+
+Lemma pairs_no_panic dec : (forall q rs, dec q rs <> Panic) ->
+  forall g p0 prev q rs acc, pairs dec g p0 prev q rs acc <> Panic.
+Proof.
+  intros Hd. induction g as [|g IH]; intros p0 prev q rs acc; cbn [pairs]; [discriminate|].
+  destruct rs as [|c r']; [discriminate|]. destruct (c =? 101); [discriminate|].
+  destruct (is_digit c); [|discriminate].
+  destruct (dec_str q (c :: r')) as [[[k q1] rs1]| | |] eqn:DS; try discriminate.
+  - destruct (match prev with None => true | Some pk => blt pk k end); [|discriminate].
+    destruct (dec q1 rs1) as [[[t q2] rs2]| | |] eqn:D; try discriminate; [apply IH|].
+    exfalso. eapply Hd; eauto.
+  - exfalso. eapply dec_str_no_panic; eauto.
+Qed.
+
+Theorem dec_any_no_panic : forall fuel p rest, dec_any fuel p rest <> Panic.
+Proof.
+  induction fuel as [|f IH]; intros p rest; cbn [dec_any]; [discriminate|].
+  destruct rest as [|b r]; [discriminate|].
+  destruct (is_digit b).
+  - destruct (dec_str p (b :: r)) as [[[s p1] r1]| | |] eqn:DS; try discriminate.
+    exfalso. eapply dec_str_no_panic; eauto.
+  - destruct (b =? 105).
+    + destruct (dec_int p (b :: r)) as [[[z p1] r1]| | |] eqn:DI; try discriminate.
+      exfalso. eapply dec_int_no_panic; eauto.
+    + destruct (b =? 108); [apply elems_no_panic; exact IH|].
+      destruct (b =? 100); [apply pairs_no_panic; exact IH|discriminate].
+Qed.
+
+Theorem decode_no_panic x : decode x <> Panic.
+Proof.
+  unfold decode. destruct (dec_any (S (length x)) 0 x) as [[[t p] r]| | |] eqn:D; try discriminate.
+  - destruct r; discriminate.
+  - exfalso. eapply dec_any_no_panic; eauto.
+Qed.
